@@ -4,8 +4,10 @@ mod codec;
 mod conc;
 mod record;
 mod refeval;
+mod signcrypt;
 mod signet;
 mod threshold;
+mod witness;
 
 use blsful::{Bls12381G1Impl, Bls12381G2Impl};
 use conc::*;
@@ -26,6 +28,8 @@ fn run_vector(v: &Value, group: &str, conc: &Conc, tables: &Tables) -> signet::O
     let f = || match (spec, group) {
         ("SigNet", "G1") => signet::run::<Bls12381G1Impl, RefG1>(v, conc, tables),
         ("SigNet", "G2") => signet::run::<Bls12381G2Impl, RefG2>(v, conc, tables),
+        ("SignCrypt", "G1") => signcrypt::run::<Bls12381G1Impl, RefG1>(v, conc, tables),
+        ("SignCrypt", "G2") => signcrypt::run::<Bls12381G2Impl, RefG2>(v, conc, tables),
         ("Threshold", "G1") => threshold::run::<Bls12381G1Impl, RefG1>(v, conc, tables),
         ("Threshold", "G2") => threshold::run::<Bls12381G2Impl, RefG2>(v, conc, tables),
         (s, g) => signet::Outcome::fail(json!({}), format!("no interpreter for spec {s} group {g}")),
@@ -184,6 +188,29 @@ fn main() {
     let code = match args.get(1).map(|s| s.as_str()) {
         Some("replay") => replay(&args[2..]),
         Some("record") => record_cmd(&args[2..]),
+        Some("witness-search") => {
+            match witness::search(&args[2], &args[3]) {
+                Some(w) => { println!("{}", w); 0 }
+                None => { eprintln!("no witness found"); 1 }
+            }
+        }
+        Some("witness") => {
+            // stdin: one witness JSON per line; stdout: one of reproduces / gone / error per line
+            let mut code = 0;
+            for line in std::io::stdin().lock().lines() {
+                let line = line.unwrap();
+                if line.trim().is_empty() { continue; }
+                let w: Value = serde_json::from_str(&line).expect("witness json");
+                let r = catch_unwind(AssertUnwindSafe(|| witness::reproduce(&w)));
+                match r {
+                    Ok(Ok(true)) => println!("reproduces"),
+                    Ok(Ok(false)) => println!("gone"),
+                    Ok(Err(e)) => { println!("error {e}"); code = 2; }
+                    Err(_) => println!("abort"),
+                }
+            }
+            code
+        }
         _ => {
             eprintln!("usage: bh replay --vectors F --tables T --out O [--groups G1,G2] [--profiles 5,129] [--seed N]");
             2
